@@ -9,12 +9,13 @@ from gen import S, case
 import props.c06 as c06
 
 IGN = c06.IGN_T.encode().hex()
+UAv = c06.UA
 
 
 def gen_case(r, cid, mode_kind):
     p, a, res, ctx, ignored = c06.gen_template(r)
     names = set()
-    for part in (p, res, ctx):
+    for part in (p, a, res, ctx):
         c06.vars_of(part, names)
     names = sorted(names)
     vars_ = []
@@ -27,6 +28,8 @@ def gen_case(r, cid, mode_kind):
             pool = list(c06.VALUES[nm])
         k = r.choice([1, 2, 2, 3])
         vals = [r.choice(pool) for _ in range(k)]      # duplicates allowed on purpose
+        if nm in ('p', 'r', 'a', 'c') and mode_kind == 'none' and r.random() < 0.06:     # (with a failing callback / cancellation the first of two errors depends on the enumeration order)
+            vals[r.randrange(len(vals))] = r.choice([gen.vlong(1), gen.vstr('s'), gen.vset([]), gen.vrec([]), UAv])      # a value of the wrong kind for that request part: `invalid part`
         if r.random() < 0.04:
             vals = []
         vars_.append([S(nm)] + vals)
@@ -106,7 +109,12 @@ def run(ctx):
         plain = meta['mode'][1] == 'none'
         # (a) model vs code
         same = sx.dump(g['status']) == sx.dump(m['status']) and sx.dump(g['calls']) == sx.dump(m['calls'])
-        if plain and same:
+        invalid = g['status'][1] == 'invalid' and m['status'][1] == 'invalid'
+        if invalid:
+            # how many callbacks precede the invalid substitution depends on the enumeration order of the variables, which Go takes from a
+            # map (ties between value lists of equal length): only the verdict is compared
+            same = True
+        if plain and same and not invalid:
             same = sx.dump(g['results']) == sx.dump(m['results'])
         if not same:
             mism += 1
